@@ -34,8 +34,11 @@ func (e *Eng) drawScopes(mustOpenID bool, label string) []string {
 }
 
 func (e *Eng) drawAud(label string) []string {
-	if rapid.IntRange(0, 3).Draw(e.t, label) == 0 {
+	switch rapid.IntRange(0, 5).Draw(e.t, label) {
+	case 0:
 		return []string{"https://api.example/v1"}
+	case 1:
+		return []string{"https://api.example/v1", "https://other.example"}
 	}
 	return nil
 }
@@ -62,6 +65,11 @@ func (e *Eng) actAuthorize() {
 			}
 		}
 	}
+	grantedAud := aud
+	if len(aud) > 1 && rapid.Bool().Draw(t, "partialAudienceConsent") {
+		// the user consents to the first audience only
+		grantedAud = aud[:1:1]
+	}
 	q := url.Values{"client_id": {client}, "response_type": {rtype}, "state": {"state-0123456789"}, "nonce": {"nonce-0123456789"}}
 	if len(scopes) > 0 {
 		q.Set("scope", strings.Join(scopes, " "))
@@ -79,7 +87,7 @@ func (e *Eng) actAuthorize() {
 		hs.Extra = map[string]interface{}{"active": false, "client_id": "evil-client", "sub": "evil-subject", "scope": "admin", "aud": []string{"https://evil.example"}, "exp": 1, "iat": 1, "username": "evil", "custom": "kept"}
 		e.label("session-extra-claims-collide")
 	}
-	res := e.w.Authorize(q, h.Consent{Session: sess, Scopes: append([]string{}, granted...)})
+	res := e.w.Authorize(q, h.Consent{Session: sess, Scopes: append([]string{}, granted...), Audience: append([]string{}, grantedAud...)})
 	e.step("authorize:" + rtype)
 	if e.w.Cfg.IsPushedAuthorizeEnforced {
 		e.label("plain-authorize-under-par-enforcement")
@@ -98,10 +106,13 @@ func (e *Eng) actAuthorize() {
 	} else if res.Code == "" {
 		flow = "implicit"
 	}
-	g := e.newGrant(client, flow, granted, aud, subject)
+	g := e.newGrant(client, flow, granted, grantedAud, subject)
 	g.Extra["declined"] = declined
 	if declined != "" {
 		e.label("partial-consent")
+	}
+	if len(grantedAud) < len(aud) {
+		e.label("partial-audience-consent")
 	}
 	if withRedirect {
 		g.Redirect = redirectURI
